@@ -52,6 +52,8 @@ def op_exp(seval, args):
     evaluated = seval.eval_args(args)
     assert all(map(lambda x: isinstance(x, (int, float)), evaluated))
     assert len(evaluated) == 2
+    if all(isinstance(x, int) for x in evaluated) and evaluated[1] >= 0:
+        return evaluated[0] ** evaluated[1]
     return int(math.pow(evaluated[0], evaluated[1]))
 
 
